@@ -476,6 +476,21 @@ func c11Limits(quick bool) []c11lim {
 		b.WriteString("n" + itoa(i) + "=0\n")
 	}
 	out = append(out, c11lim{"names>65536", b.String(), py.ExecMode})
+	// star-unpacking targets: 255 / 256 / 257 names before and after the starred one
+	for _, ba := range [][2]int{{0, 255}, {0, 256}, {0, 257}, {255, 0}, {256, 0}, {255, 255}, {255, 256}, {1, 300}, {254, 1}} {
+		var names []string
+		for i := 0; i < ba[0]; i++ {
+			names = append(names, "p"+itoa(i))
+		}
+		names = append(names, "*s")
+		for i := 0; i < ba[1]; i++ {
+			names = append(names, "q"+itoa(i))
+		}
+		t := strings.Join(names, ", ")
+		out = append(out, c11lim{"star-unpack-" + itoa(ba[0]) + "-" + itoa(ba[1]), t + " = t\n", py.ExecMode})
+		out = append(out, c11lim{"star-unpack-for-" + itoa(ba[0]) + "-" + itoa(ba[1]), "for " + t + " in t: pass\n", py.ExecMode})
+		out = append(out, c11lim{"star-unpack-list-" + itoa(ba[0]) + "-" + itoa(ba[1]), "def f():\n    [" + t + "] = t\n", py.ExecMode})
+	}
 	// jump over > 65535 bytes
 	b.Reset()
 	b.WriteString("if x:\n")
